@@ -394,6 +394,27 @@ def paint_varied_reuse_set(r, nglyphs=3, defaults=False):
     return svgs
 
 
+def same_body_other_viewbox_set(r, nglyphs=3, gradients=False, pal=None):
+    """The same artwork, character for character, under different viewBoxes (size, origin, aspect): identical path
+    strings that must land in different places / sizes of the em box."""
+    shapes = []
+    for _ in range(r.randint(1, 3)):
+        x0, y0 = r.randint(10, 30), r.randint(10, 60)
+        w, h = r.randint(5, 15), r.randint(8, 30)
+        k = r.choice(["tri", "quad", "curve"])
+        if k == "tri":
+            d = f"M{x0},{y0} L{x0+w},{y0+h//2} L{x0},{y0+h} Z"
+        elif k == "quad":
+            d = f"M{x0},{y0} L{x0+w},{y0} L{x0+w},{y0+h} L{x0-3},{y0+h-2} Z"
+        else:
+            d = f"M{x0},{y0} C{x0+w},{y0} {x0+w},{y0+h} {x0},{y0+h} Z"
+        shapes.append((d, rnd_color(r, pal)))
+    body = "".join(f'<path d="{d}" fill="{f}"/>' for d, f in shapes)
+    boxes = [(0, 0, 100, 100), (0, 0, 200, 100), (-20, -10, 150, 150), (0, 0, 50, 100), (5, 5, 64, 96), (0, 0, 1000, 1000)]
+    r.shuffle(boxes)
+    return [f'<svg xmlns="http://www.w3.org/2000/svg" viewBox="{b[0]} {b[1]} {b[2]} {b[3]}">{body}</svg>' for b in boxes[:nglyphs]]
+
+
 def grid_recurrence_set(r, nglyphs=2, gradients=True, pal=None):
     """Recurrence on an integer grid: the viewBox maps to font units by an integer factor, shapes and the centres /
     offsets of the placing transforms are integers, scales are 'nice' (-1, 1/2, 3/2, 2, 1 on one axis) - so the encoder
